@@ -8,6 +8,7 @@ import (
 	"strings"
 
 	badgerds "github.com/dgraph-io/badger/v4"
+	"github.com/dgraph-io/badger/v4/options"
 	"github.com/ipfs/go-cid"
 	"github.com/sourcenetwork/corekv"
 	"github.com/sourcenetwork/corekv/badger"
@@ -66,7 +67,11 @@ func OpenStore(o NodeOpts) corekv.TxnStore {
 		Must(err)
 		return rs
 	default:
-		bo := badgerds.DefaultOptions("").WithInMemory(true).WithLogger(nil)
+		// small arenas, no caches: the default options allocate a 64 MB memtable and 256 MB of cache
+		// bookkeeping per store, which costs 30-300 ms per node when thousands of fresh nodes are
+		// created; behaviour of the store is otherwise unchanged.
+		bo := badgerds.DefaultOptions("").WithInMemory(true).WithLogger(nil).WithMemTableSize(8 << 20).
+			WithBlockCacheSize(0).WithIndexCacheSize(0).WithCompression(options.None).WithNumCompactors(2).WithNumMemtables(2)
 		rs, err := badger.NewDatastore("", bo)
 		Must(err)
 		return rs
